@@ -17,7 +17,7 @@ if __name__ == '__main__':
 import vf
 
 PROP = 'C11'
-QUICK = ['gen/MC_C11atoms_q.cfg', 'gen/MC_C11uneval_q.cfg', 'gen/MC_C11refs_q.cfg', 'gen/MC_C11nest1_q.cfg', 'gen/MC_C11pairs_q.cfg']
+QUICK = ['gen/MC_C11atoms_q.cfg', 'gen/MC_C11scope_q.cfg', 'gen/MC_C11uneval_q.cfg', 'gen/MC_C11refs_q.cfg', 'gen/MC_C11nest1_q.cfg', 'gen/MC_C11pairs_q.cfg']
 CFG = {'quick': QUICK,
        'thorough': QUICK + ['gen/MC_C11pairs_t.cfg', 'gen/MC_C11uneval2_t.cfg', 'gen/MC_C11uneval3_t.cfg', 'gen/MC_C11sib_t.cfg', 'gen/MC_C11triples_t.cfg',
                             'gen/MC_C11nest2_t.cfg', 'gen/MC_C11refs2_t.cfg']}
